@@ -375,7 +375,7 @@ func classifyPartial(p *Plan, w *world, res *simcore.Result, ui int, x *unitExpe
 			res.Probe("batch-partial-reply:timeout-cancel-vs-return")
 		}
 	}
-	return key, viol(oracleMissing, key, "batch unit %d: the reply carries %q, the entries with ids %q were never answered (request timeout / context deadline hit while the batch was being processed): %s",
+	return key, viol(oracleMissing, key, "batch unit %d: the reply carries %q, the entries with ids %q were never answered (request timeout / context deadline / outside cancellation hit while the batch was being processed): %s",
 		ui, ids, lost, raw)
 }
 
@@ -512,7 +512,8 @@ func judge(p *Plan, o *obs, deadlock string, res *simcore.Result) *simcore.Resul
 				return p.WriteTimeoutMS > 0
 			}
 			u := &p.Units[ui]
-			return p.Door == "http" && (u.WriteTimeoutMS > 0 || u.CtxTimeoutMS > 0)
+			// an outside cancellation makes the tree answer what is left with the timeout error too
+			return p.Door == "http" && (u.WriteTimeoutMS > 0 || u.CtxTimeoutMS > 0 || u.CancelNS > 0)
 		}
 
 		// ---- walk the frames
@@ -903,6 +904,24 @@ func judge(p *Plan, o *obs, deadlock string, res *simcore.Result) *simcore.Resul
 		}
 		if w.racy[ui] {
 			res.Probe("same-instant-timeout-vs-return")
+		}
+		if at, ok := w.cancelled[ui]; ok {
+			res.Fault("request-context-cancelled")
+			for i := range u.Entries {
+				if ret, ok := w.returned[u.Entries[i].Name]; ok && ret >= at {
+					res.Probe("cancelled-while-method-running")
+					break
+				}
+			}
+			if h := o.https[ui]; h.startAt <= at && u.Batch {
+				for i := range u.Entries {
+					e := &u.Entries[i]
+					if e.runsMethod() && w.invoked[e.Name] == 0 {
+						res.Probe("cancelled-with-batch-calls-unstarted")
+						break
+					}
+				}
+			}
 		}
 		seen := map[string]bool{}
 		for i := range u.Entries {
